@@ -1484,7 +1484,12 @@ def spec_problems(c, io, drv):
     plays_all = [x for x in full_script(c) if x[0] == "play"]
     failing = [i for i, x in enumerate(plays_all) if len(x) > 2 and x[2].get("openfail")]
     termfail = bool((c.get("faults") or {}).get("terminate"))
+    ti = -1          # ordinal of the player thread that owns stream k: `alive` / `halting` list the player
+                     # threads (one per output stream, in creation order), not the device streams - with a
+                     # recording stream in front the two numberings differ (thorough-tier false alarm, session 4)
     for k, st in enumerate(io["streams"]):
+        if not st.get("input"):
+            ti += 1
         if st.get("input"):
             # a recording's device stream: never written to; closed exactly once by close()
             if st["written"]:
@@ -1507,7 +1512,7 @@ def spec_problems(c, io, drv):
             full = want[m][:len(audio_of(c, st["m"], plays_all[st["m"]])) // cs]
         if w != want[m][:len(w)]:
             out.append(("delivered", "stream %d received %r, not a prefix of %r" % (k, w, want[m])))
-        elif (k < len(io["alive"]) and not io["alive"][k] and not io["halting"][k] and w != full
+        elif (ti < len(io["alive"]) and not io["alive"][ti] and not io["halting"][ti] and w != full
               and io["outcome"] == "done"):
             out.append(("delivered-incomplete", "stream %d: player finished un-stopped after %d of %d chunks" % (k, len(w), len(full))))
         if st["nframes"] not in ([], [st["frames"]]):
